@@ -34,6 +34,16 @@ CHECKS = {
    text="Merkle.tla (injective domain-separated hash algebra; Completeness/ContentSound/PositionSound for 1-9 leaves under every mutation), PartSet.tla (AddPart with the proof bound to index and total; CompleteIsOriginal, GenuineNeverBlocked, RejectNoOp for 0-5 parts, all arrival orders, 20 adversarial part kinds) replayed into real types.PartSet built from real block bytes; BlockFields.tla (BlockFromProto/ValidateBasic/validateBlock/VerifyCommit over a record of all header fields, txs, last commit, evidence; TamperEvidentId, UniqueIds, AcceptedIsValid for 48 single-field mutations and pairs) executed on four real nodes through part set, wire decoder and BlockExecutor.ValidateBlock (fresh and warm cache); Codec.tla round trips through proto codecs, consensus envelope and rawdb.",
    note="Trusted: TLC, the driver's mapping of abstract offers/mutations to real ones, collision resistance of sha256/keccak, secp256k1. Blocks beyond 5 parts, mutations of 3+ fields, unequal powers in the commit check are not covered.",
    ref="§4-C13"),
+ "C11": dict(
+   engine="sig", category="model_checking", technique="TLA+ signature algebra (SigAlgebra.tla) enumerated by TLC; every case (original, 1-3 mutations, presented signer, signature form) replayed into the real signing and acceptance paths",
+   text="SigAlgebra.tla states the Dolev-Yao assumption the consensus specifications rely on (a signature verifies iff signer and full content are unchanged), one operator per real acceptance path. For every honestly signed prevote, precommit, proposal and transaction over 3-value field domains and every presentation after 1-3 mutations (any content field, the message type in all directions, verifier chain id / signer, claimed address / index / proposer, chain marker in V, 17/15 forms of the signature bytes incl. high-s twin, r/s = 0 or >= N, wrong lengths, random strings) TLC gives the verdict and the driver checks that types.VerifySignature, Vote.Verify, VoteSet/HeightVoteSet.AddVote, VerifyCommit, VerifyDuplicateVote, the reactor codec, the real setProposal, types.Sender (fresh, decoded, cached), AsMessage and a real TxPool accept iff the algebra says so, never panic, and that sign-then-recover returns the signer.",
+   note="Trusted: unforgeability of secp256k1/keccak, TLC, 3 values per field through 4-6 concretisation tables. Keystore/JSON paths and other PrivValidator implementations are not bound.",
+   ref="§4-C11"),
+ "C20": dict(
+   engine="conn", category="model_checking", technique="TLA+ specs (SecretConn handshake/stream/upgrade, MConn) model-checked by TLC; every behaviour replayed on real MakeSecretConnection / transport.upgrade / MConnection; TLC trace validation of concurrent real connections",
+   text="Handshake: Dolev-Yao adversary against 2-3 honest sessions (Authenticated, NoImpersonation, Mutual, EstablishedSound incl. the transport's reject-self), each model session executed as a real MakeSecretConnection against the driver's own adversary implementation. Frame stream: all write/read chunkings over {0,1,1023,1024,1025,2049}, Flip and Cut at every byte offset, Drop/Dup/Swap/Replay/Inject up to three manipulations (DeliveredIsPrefixOfSent, TamperDetected) replayed on real connection pairs with the wire owned by the driver. MConnection: all packet interleavings and fragmentations, lengths 0..capacity+1 (PerChannelFIFOExactlyOnce, NoCrossChannelMixing, OversizeRefused, AllDelivered) replayed on a real receiver and stepped sender; traces of real concurrent MConnection-over-SecretConnection pairs and concurrent writers are explained by the specification (TLC).",
+   note="Trusted: perfect X25519/HKDF/merlin/ChaCha20-Poly1305/ECDSA, TLC, the in-memory wire and the driver's independent adversary, a finite adversary closure. Ping/pong, flow-rate throttling and real TCP are not covered. Named deviation: the role-less challenge allows self-reflection, closed by transport.upgrade (composed invariant EstablishedSound).",
+   ref="§4-C20"),
 }
 
 NOT_YET = {
